@@ -106,6 +106,12 @@ func (ix *IPDB) UpdateClient(ip net.IP, duid d.Duid, ttl time.Duration) error {
 	now := time.Now()
 	ltime := now.Add(ttl)
 
+	// Never shorten a lease we already granted to this very client:
+	// a bound client which sends a new DISCOVER must not lose its lease.
+	if oip, oduid := ix.clients.Lookup(now, n, duid); oip != nil && oip == oduid && oip.LeasedUntil().After(ltime) {
+		ltime = oip.LeasedUntil()
+	}
+
 	// First, just try an optimistic set.
 	if ix.clients.SetLease(now, n, duid, ltime) == nil {
 		return nil
